@@ -84,3 +84,64 @@ pub fn verif_replacen_str(s: &str, pat: &str, to: &str, n: usize) -> (r: String)
         forall|p: int| #[trigger] occurs_at(utf8(s@), p, utf8(pat@)) && (forall|q: int| 0 <= q < p ==> !#[trigger] occurs_at(utf8(s@), q, utf8(pat@)))
             ==> utf8(r@) == utf8(s@).subrange(0, p) + utf8(to@) + utf8(s@).subrange(p + utf8(pat@).len(), utf8(s@).len() as int),
 { s.replacen(pat, to, n) }
+
+/// `Option::filter` — std doc: "Returns None if the option is None, otherwise calls predicate with the
+/// wrapped value and returns Some(t) if predicate returns true, None if predicate returns false."
+pub assume_specification<T, P: FnOnce(&T) -> bool>[ Option::<T>::filter ](o: Option<T>, p: P) -> (r: Option<T>)
+    requires o matches Some(x) ==> call_requires(p, (&x,)),
+    ensures
+        o is None ==> r is None,
+        o matches Some(x) ==> (exists|b: bool| #[trigger] call_ensures(p, (&x,), b) && r == (if b { Some(x) } else { None::<T> }));
+
+
+// ---- additions for N6 (markdown link-reference comments) ---------------------------------------------
+
+/// Rule E13 shim for `[c1, .., cN].contains(&x)` on a char array (`<[T]>::contains`: "Returns true
+/// if the slice contains an element with the given value"; `char` equality is structural).
+#[verifier::external_body]
+pub fn verif_chars_contains<const N: usize>(s: &[char; N], x: &char) -> (r: bool)
+    ensures r == s@.contains(*x)
+{ s.contains(x) }
+
+/// Rule E13 shim for `s.chars().next()`: the first char of the text, `None` for the empty text
+#[verifier::external_body]
+pub fn verif_first_char(s: &str) -> (r: Option<char>)
+    ensures r == (if s@.len() > 0 { Some(s@[0]) } else { None::<char> })
+{ s.chars().next() }
+
+/// Rule E13 shim for `s.rfind(c)` with an ASCII char `c`: byte offset of the last byte equal to the
+/// code of `c` (an ASCII byte occurs in UTF-8 only as that char).
+#[verifier::external_body]
+pub fn verif_rfind_ascii_char(s: &str, c: char) -> (r: Option<usize>)
+    requires (c as u32) < 128 // [std.rfind_char.shim.pre.ascii_pattern]
+    ensures
+        r matches Some(p) ==> p < utf8(s@).len() && utf8(s@)[p as int] == c as u8
+            && forall|q: int| p < q < utf8(s@).len() ==> #[trigger] utf8(s@)[q] != c as u8,
+        r is None ==> forall|q: int| 0 <= q < utf8(s@).len() ==> #[trigger] utf8(s@)[q] != c as u8,
+{ s.rfind(c) }
+
+/// `str::repeat` — std doc: "Creates a new String by repeating a string n times. Panics if the
+/// capacity would overflow." (=> precondition)
+pub assume_specification[ str::repeat ](s: &str, n: usize) -> (r: String)
+    requires utf8(s@).len() * n <= usize::MAX // [std.str_repeat.pre.capacity]
+    ensures
+        utf8(r@).len() == utf8(s@).len() * n,
+        forall|i: int| 0 <= i < utf8(r@).len() ==> #[trigger] utf8(r@)[i] == utf8(s@)[i % (utf8(s@).len() as int)],
+;
+
+/// the first char of a non-empty text is ASCII => the first byte is its code (proved)
+pub proof fn lemma_first_char_ascii(t: Seq<char>)
+    requires t.len() > 0, (t[0] as u32) < 128
+    ensures utf8(t).len() > 0 && utf8(t)[0] == t[0] as u8
+{
+    lemma_utf8_one(t[0]);
+    encode_utf8_concat(seq![t[0]], t.subrange(1, t.len() as int));
+    assert(seq![t[0]] + t.subrange(1, t.len() as int) =~= t);
+}
+
+/// Rule E13 shim for `s.chars().nth(n)`: the n-th CHAR (not byte) of the text — its own function, so
+/// that code which indexes chars with a byte offset does not verify by accident.
+#[verifier::external_body]
+pub fn verif_chars_nth(s: &str, n: usize) -> (r: Option<char>)
+    ensures r == (if n < s@.len() { Some(s@[n as int]) } else { None::<char> })
+{ s.chars().nth(n) }
